@@ -12,16 +12,16 @@ import numpy as np
 from tsdate import prior as tprior
 
 ID = "C14"
-N = {"quick": 39, "thorough": 140}
+N = {"quick": 40, "thorough": 145}
 BUDGET = {"quick": 240.0, "thorough": 1800.0}
 RULE = ("case = one total sample count n; every k in 2..n is judged for both prior distributions; "
-        "quick: every n in 2..40 (exhaustive for that bound, exact rationals); thorough: every n in "
+        "quick: every n in 2..40 (exhaustive for that bound, exact rationals) plus n=1300 at 8 spot values of k; thorough: every n in "
         "2..100 plus 41 larger n up to 400 (40-digit arithmetic); distinct = (n,k) pairs; "
         "non-trivial = k < n or n > 2")
 EXHAUSTIVE = True
 
 
-def exact_moments(n, exact=True):
+def exact_moments(n, exact=True, ks=None):
     """dict k -> (mean, var) of the age of the MRCA of a fixed k-subset conditional on it
     being a clade; time in units where j lineages coalesce at rate C(j,2)."""
     if exact:
@@ -39,7 +39,7 @@ def exact_moments(n, exact=True):
         cm[j] = cm[j + 1] + one / C2[j]
         cv[j] = cv[j + 1] + one / (C2[j] * C2[j])
     out = {}
-    for k in range(2, n + 1):
+    for k in (range(2, n + 1) if ks is None else ks):
         # f[s] at current j: probability of being in state (j, s) with the subset unbroken
         f = {k: one}
         pm = F(0)   # P(monophyletic)
@@ -69,12 +69,20 @@ def exact_moments(n, exact=True):
     return out
 
 
+BIG_QUICK = [1300]
+BIG_THOROUGH = [1100, 1300, 2000, 3000]
+
+
+def big_ks(n):
+    return sorted({2, 3, 4, 10, 50, n - 50, n - 1, n})
+
+
 def ns_for(ctx):
     if ctx.tier == "quick":
-        return list(range(2, 41))
+        return list(range(2, 41)) + BIG_QUICK
     rng = ctx.rng(0)
     big = sorted(set(int(x) for x in np.round(np.exp(rng.uniform(np.log(101), np.log(400), size=41)))))
-    return list(range(2, 101)) + big
+    return list(range(2, 101)) + big + BIG_THOROUGH
 
 
 def case(ctx, i, rec):
@@ -83,7 +91,10 @@ def case(ctx, i, rec):
         return
     n = ns[i]
     exact = n <= 60
-    ref = exact_moments(n, exact=exact)
+    ks = big_ks(n) if n > 400 else None
+    ref = exact_moments(n, exact=exact, ks=ks)
+    if ks is not None:
+        rec.count("large_n_cases(spot values of k)")
     rec.sig = f"n={n}"
     rec.nontrivial = n > 2
     if i < 3:
@@ -92,7 +103,7 @@ def case(ctx, i, rec):
         obj = tprior.ConditionalCoalescentTimes(None, distr)
         obj.add(n)
         rows = obj[n]
-        for k in range(2, n + 1):
+        for k in (range(2, n + 1) if ks is None else ks):
             alpha, beta, mean, var = [float(x) for x in rows[k]]
             rm, rv = ref[k]
             e1 = abs(mean - rm) / rm
